@@ -101,7 +101,20 @@ func sceneDefine() {
 	case 2:
 		schemas = `{"input":{"type":"nope"},"output":{"type":"object"}}`
 	}
-	msg := types.NewMsgDefineService(name, "d1", nil, author, "ad1", schemas)
+	// tags: none, one, or a pair that is valid as sent but would collide or vanish if "normalised"
+	var tags []string
+	switch vf.Choice("tags", 5) {
+	case 1:
+		tags = []string{"t"}
+	case 2:
+		tags = []string{"feed", "feed "}
+	case 3:
+		tags = []string{"Feed", "feed", " "}
+	case 4:
+		tags = []string{"a", "b", "c", "d", "e", "f", "g", "h", "i", "j"}
+	}
+	desc := []string{"d1", "", " d 1 "}[vf.Choice("description", 3)]
+	msg := types.NewMsgDefineService(name, desc, tags, author, "ad1", schemas)
 	vf.Assume(msg.ValidateBasic() == nil)
 	_, err, panicked := vf.Deliver(ctx, service.NewHandler(k), msg)
 	chk("C20", !panicked, "define-no-panic")
@@ -112,6 +125,11 @@ func sceneDefine() {
 	if err == nil {
 		def, ok := k.GetServiceDefinition(ctx, name)
 		chk("C15", vf.All(ok, def.Name == name, def.Author.Equals(author), def.Schemas == schemas), "definition-recorded")
+		sameTags := len(def.Tags) == len(tags)
+		for i := 0; i < len(def.Tags) && i < len(tags); i++ {
+			sameTags = sameTags && def.Tags[i] == tags[i]
+		}
+		chk("C15", vf.All(sameTags, def.Description == desc, def.AuthorDescription == "ad1"), "definition-recorded-as-sent")
 		chk("C15", def.Validate() == nil, "stored-definition-is-valid")
 	}
 	n := 0
